@@ -267,6 +267,7 @@ def run(prog, chk):
     chk.floor("R4.5", "parser sink call sites in brush_core::expansion", nsinks, 8)
     glob_activity_rule(prog, chk)
     positional_join_rule(prog, chk)
+    star_joiner_rule(prog, chk)
 
 
 GLOB_DETECTOR = "brush_parser::pattern::pattern_has_glob_metacharacters"
@@ -440,3 +441,30 @@ def positional_join_rule(prog, chk):
     chk.note("expansion_loops_with_string_pushes", nloops)
     chk.floor("R4.7", "positional joins (join / intersperse) in expansion and variable code", njoins, 3)
     chk.ok("R4.7", "joins-are-positional", "%d loops that push to a String examined; %d positional joins" % (nloops, njoins), function="brush_core::expansion")
+
+
+def star_joiner_rule(prog, chk):
+    """R4.8: `"$*"` / `"${a[*]}"` join with the first character of IFS — and with *nothing* when IFS is set to the empty string (a space
+    only when IFS is unset). The function that yields the joiner must keep the empty case apart: returning a `char` obtained with
+    `unwrap_or(' ')` from `ifs().chars().next()` maps the empty IFS onto a space."""
+    from dataflow import flow_back
+    chk.rule("R4.8", "the joiner of \"$*\" distinguishes an empty IFS (join with nothing) from an unset one (space): it is not "
+                     "`ifs().chars().next().unwrap_or(' ')`")
+    b = prog.body("brush_core::shell::Shell::get_ifs_first_char")
+    if not chk.anchor("R4.8", "Shell::get_ifs_first_char", b):
+        return
+    d = defs_of(b)
+    collapsed = False
+    for bb, t in b.calls():
+        cal = t.best_callee() or t.callee or ""
+        if cal.endswith("Option::unwrap_or") and len(t.args) == 2:
+            dflt = [f for f in flow_back(b, d, t.args[1]) if f.kind == 'const']
+            src = {v for f in flow_back(b, d, t.args[0]) for v in f.via}
+            if dflt and any(v.endswith("Iterator>::next") or v.endswith("str::chars") for v in src) and b.ret == "char":
+                collapsed = True
+    if collapsed:
+        chk.fail("R4.8", b.name, "empty-ifs-joins-with-space",
+                 "get_ifs_first_char returns `ifs().chars().next().unwrap_or(' ')`: with IFS set to the empty string the quoted $* and ${a[*]} are joined with a space "
+                 "instead of nothing — `IFS=; set -- x y; echo \"$*\"` prints `x y` (bash `xy`)")
+    else:
+        chk.ok("R4.8", "empty-ifs-kept-apart", "the joiner function does not collapse the empty IFS onto a default character", function=b.name)
